@@ -20,39 +20,6 @@ import wire
 from common import CLASSES, EX, NODES, PREDS, SH, graph_from_triples
 
 
-class RefRDFS(owlrl.RDFSClosure.RDFS_Semantics):
-    def one_time_rules(self):   # pySHACL documents that it switches the literal "hidden" rules off
-        pass
-
-
-class RefBoth(RefRDFS, owlrl.OWLRL.OWLRL_Semantics):
-    full_binding_triples = [(OWL.Thing, OWL.equivalentClass, RDFS.Resource), (RDFS.Class, OWL.equivalentClass, OWL.Class),
-                            (OWL.DataRange, OWL.equivalentClass, RDFS.Datatype)]
-
-    def __init__(self, graph, axioms, daxioms, rdfs=True, destination=None):
-        owlrl.OWLRL.OWLRL_Semantics.__init__(self, graph, axioms, daxioms, rdfs=rdfs, destination=destination)
-        RefRDFS.__init__(self, graph, axioms, daxioms, rdfs=rdfs, destination=destination)
-        self.rdfs = True
-
-    def post_process(self):
-        owlrl.OWLRL.OWLRL_Semantics.post_process(self)
-
-    def rules(self, t, cycle_num):
-        owlrl.OWLRL.OWLRL_Semantics.rules(self, t, cycle_num)
-        RefRDFS.rules(self, t, cycle_num)
-
-    def add_axioms(self):
-        RefRDFS.add_axioms(self)
-        for t in self.full_binding_triples:
-            self.graph.add(t)
-
-    def add_d_axioms(self):
-        pass
-
-    def one_time_rules(self):
-        owlrl.OWLRL.OWLRL_Semantics.one_time_rules(self)
-
-
 AX_CLASSES = None
 AX_PROPS = None
 
@@ -100,7 +67,10 @@ def ref_inoculate(data: Graph, ont: Graph) -> Graph:
 
 
 def ref_expand(g: Graph, inference: str) -> Graph:
-    sem = {"rdfs": RefRDFS, "owlrl": owlrl.OWLRL_Semantics, "both": RefBoth}[inference]
+    # which closure "rdfs" / "owlrl" / "both" denote is pySHACL's documented choice of owlrl semantics classes
+    # (RDFS without the literal one-time rules); owlrl itself is called directly here
+    from pyshacl.inference import CustomRDFSOWLRLSemantics, CustomRDFSSemantics
+    sem = {"rdfs": CustomRDFSSemantics, "owlrl": owlrl.OWLRL_Semantics, "both": CustomRDFSOWLRLSemantics}[inference]
     owlrl.DeductiveClosure(sem).expand(g)
     return g
 
@@ -251,9 +221,16 @@ def run(ctx, out):
         if code[0] != "ok":
             out.count("err:" + code[1])
             continue
-        drop_b = lambda ms: type(ms)({k: v for k, v in ms.items() if not (k[0].startswith("B:") and not any(wire.tkey(x) == k[0] for x in BN_DATA))})
-        global BN_DATA
-        BN_DATA = [t for tr in data for t in tr if isinstance(t, BNode)]
+        bn_data = set(wire.tkey(t) for tr in data for t in tr if isinstance(t, BNode))
+
+        def drop_b(ms):
+            """blank nodes copied from the ontology get fresh labels in each copy: compare them as anonymous"""
+            from collections import Counter
+            out_ = Counter()
+            for k, v in ms.items():
+                kk = tuple(("B:*" if isinstance(x, str) and x.startswith("B:") and x not in bn_data else x) for x in k[:2]) + k[2:]
+                out_[kk] += v
+            return out_
         a, b = drop_b(results_key(code, sg)), drop_b(results_key(ref, sg))
         if a != b or code[1] != ref[1]:
             out.b_fail.append({"signature": "C14:preexpanded:results-differ:%s" % inf, "case": case,
